@@ -21,6 +21,8 @@ import (
 
 var diagRe = regexp.MustCompile(`Token \[type: (\w+), line: (\d+), position: (\d+)\]: ("(?:[^"\\]|\\.)*"(?:\.\.\.)?)`)
 
+var looseDiagRe = regexp.MustCompile(`(?is)line\W{0,3}(\d+)\D{1,24}?(?:position|column|col)\W{0,3}(\d+)`)
+
 // Outcome of one ParseSource call.
 type Outcome struct {
 	Value    any
@@ -88,6 +90,16 @@ func ClassifyOutcome(src string, o Outcome) (sig, msg string) {
 	case string:
 		m := diagRe.FindStringSubmatch(p)
 		if m == nil {
+			// another wording of a located diagnostic: it must still give a line and a
+			// position/column that lie inside the source (the statement does not fix the text)
+			if lm := looseDiagRe.FindStringSubmatch(p); lm != nil {
+				line, _ := strconv.Atoi(lm[1])
+				colm, _ := strconv.Atoi(lm[2])
+				if _, ok := offsetOf([]rune(src), line, colm); !ok {
+					return "diagnostic/location-outside-source", fmt.Sprintf("the diagnostic points at line %d, position %d, which is outside the source", line, colm)
+				}
+				return "", ""
+			}
 			first := strings.SplitN(p, "\n", 2)[0]
 			key := first
 			if len(key) > 40 {
@@ -369,6 +381,11 @@ func RunC12Injection(c *core.Ctx) {
 		return
 	}
 	m := diagRe.FindStringSubmatch(o.Text)
+	if m == nil {
+		// a differently worded diagnostic: compare the location only
+		lm := looseDiagRe.FindStringSubmatch(o.Text)
+		m = []string{"", "error", lm[1], lm[2]}
+	}
 	gl, _ := strconv.Atoi(m[2])
 	gc, _ := strconv.Atoi(m[3])
 	if m[1] != "error" || gl != line || gc != colm {
